@@ -12,6 +12,7 @@ for D in "$WT"/SEEDED/m*; do
   git checkout -q -- . ; rm -f tests/demo_seed.rs examples/demo_seed.rs
   if ! git apply --check "$D/patch.diff" 2>/dev/null; then echo "$P $K: patch does not apply"; continue; fi
   if grep -qE '#\[(tokio::)?test' "$D/demo.rs"; then MODE=test; mkdir -p tests; DEMO=tests/demo_seed.rs; RUN="cargo test --offline --test demo_seed -- --test-threads=4"; else MODE=example; mkdir -p examples; DEMO=examples/demo_seed.rs; RUN="cargo run --offline --example demo_seed"; fi
+  if grep -q 'feature = "verif"' "$D/demo.rs"; then RUN="$RUN --features verif"; RUN=$(echo "$RUN" | sed 's/ -- --test-threads=4 --features verif/ --features verif -- --test-threads=4/'); fi
   # 1. demo on pristine tree must pass
   cp "$D/demo.rs" "$DEMO"
   timeout 600 $RUN > /tmp/seed-$P-$K-pristine.log 2>&1; PR=$?
